@@ -25,6 +25,7 @@ type Gen struct {
 	W       map[string]int // weight per request kind
 	// Timeouts offered for new promises, relative to "now" (ms); negative = already past
 	TimeoutDeltas []int64
+	ClaimTtls     []int // leases offered to ClaimTask (nil = default pool)
 	RouteOneIn    int // a created promise carries a routing tag with probability 1/RouteOneIn (0 = never)
 	RouteTags     []string
 	PastTimeouts  bool // allow create with timeout <= now (F13)
@@ -43,6 +44,14 @@ func DefaultGen(d D) *Gen {
 		W:        map[string]int{},
 		Excluded: map[string]int{},
 	}
+}
+
+func (g *Gen) claimTtl() int {
+	ttls := g.ClaimTtls
+	if len(ttls) == 0 {
+		ttls = []int{0, 1000, 2000, 3000, 3000, 3600_000}
+	}
+	return ttls[g.D.Uni(len(ttls), "ttl")]
 }
 
 func (g *Gen) pick(xs []string, label string) string {
@@ -165,7 +174,7 @@ func (g *Gen) Req(now int64) *t_api.Request {
 	case "ClaimTask", "CompleteTask":
 		tid, ctr := g.taskRef()
 		if k == "ClaimTask" {
-			return &t_api.Request{Kind: t_api.ClaimTask, ClaimTask: &t_api.ClaimTaskRequest{Id: tid, Counter: ctr, ProcessId: g.pick(g.Workers, "w"), Ttl: []int{0, 1000, 2000, 3000, 3000, 3600_000}[g.D.Uni(6, "ttl")]}}
+			return &t_api.Request{Kind: t_api.ClaimTask, ClaimTask: &t_api.ClaimTaskRequest{Id: tid, Counter: ctr, ProcessId: g.pick(g.Workers, "w"), Ttl: g.claimTtl()}}
 		}
 		return &t_api.Request{Kind: t_api.CompleteTask, CompleteTask: &t_api.CompleteTaskRequest{Id: tid, Counter: ctr}}
 	case "HeartbeatTasks":
